@@ -219,6 +219,9 @@ fn calls(ctx: &Ctx) -> Vec<Call> {
 }
 
 pub fn run(ctx: &Ctx) {
+    // the watchdog's clock also covers the harness's own oracle work (reference models, DOM enumeration);
+    // the limit is generous so that machine load cannot turn a slow case into a verdict
+    ctx.hang_limit_s.store(300, std::sync::atomic::Ordering::Relaxed);
     let cs = calls(ctx);
     let sub = "calls";
     let pre = "@use \"sass:list\"; @use \"sass:map\"; @use \"sass:string\";\n";
